@@ -250,6 +250,26 @@ func runCrashCase(c crashCase, work string) (string, string, int) {
 	if sig != "" {
 		return sig, msg + " (" + when + "; operations: " + opsString(rec.Ops) + ")", transitions
 	}
+	// life goes on in the directory the crash left behind (whatever scratch files it contains): the restarted
+	// server takes one more change, saves it, and the next restart must load exactly that
+	crashPath := filepath.Join(crashDir, "upsks.json")
+	ms4, err := register(crashPath)
+	transitions++
+	if err != nil {
+		return "", "", transitions // reported above
+	}
+	if err := ms4.AddCredential("after-crash", key(c.Users+11)); err != nil {
+		harness.Fatal("change after the crash: %v", err)
+	}
+	wantAfter := setString(credSet(ms4))
+	if err := ms4.VerifSaveNow(); err != nil {
+		return "first-save-after-crash-fails", fmt.Sprintf("%s: after %s the restarted server's first save fails (%v): an acknowledged change is not written (operations of the interrupted save: %s)", where, when, err, opsString(rec.Ops)), transitions
+	}
+	ms5, err := register(crashPath)
+	transitions++
+	if err != nil || setString(credSet(ms5)) != wantAfter {
+		return "first-save-after-crash-wrong", fmt.Sprintf("%s: after %s, one more change and a save, a restart does not load the new set: %v", where, when, err), transitions
+	}
 	return "", "", transitions
 }
 
